@@ -375,6 +375,39 @@ func c17worker(c *hx.Ctx) int {
 			rep.Samples = append(rep.Samples, map[string]any{"schema": schema, "instance": insts[len(insts)-1], "roots": roots})
 		}
 	}
+	// part C: wide instances. Messages are de-duplicated while results are merged, and the library
+	// validates members matched by pattern properties more than once on purpose: with many failing
+	// members the list must still name each of them exactly once (150 members, 150 items; more than any
+	// fixed look-behind window)
+	if c.Worker == 0 {
+		wide := func(n int, member func(i int) string) string {
+			parts := make([]string, n)
+			for i := range parts {
+				parts[i] = member(i)
+			}
+			return strings.Join(parts, ",")
+		}
+		wideObj := "{" + wide(150, func(i int) string { return fmt.Sprintf(`"p%03d":"s%d"`, i, i) }) + "}"
+		wideArr := "[" + wide(150, func(i int) string { return fmt.Sprintf(`"s%d"`, i) }) + "]"
+		for _, sc := range [][2]string{
+			{`{"patternProperties":{"^p":{"type":"integer"}}}`, wideObj},
+			{`{"patternProperties":{"^p":{"type":"integer"}},"additionalProperties":false}`, wideObj},
+			{`{"additionalProperties":{"type":"integer"}}`, wideObj},
+			{`{"properties":{"p000":{"type":"integer"}},"patternProperties":{"^p":{"type":"integer"},"0$":{"maxLength":1}},"additionalProperties":{"type":"integer"}}`, wideObj},
+			{`{"items":{"type":"integer"}}`, wideArr},
+			{`{"items":[{"type":"integer"}],"additionalItems":{"type":"integer"}}`, wideArr},
+			{`{"properties":{"w":{"patternProperties":{"^p":{"type":"integer"}}}}}`, `{"w":` + wideObj + `}`},
+		} {
+			// designation is claimed for members and positional items, not for the elements of a list
+			// schema (the library names those by the array): there only the form of the list is examined
+			located := !strings.HasPrefix(sc[0], `{"items":{`)
+			for _, r := range roots {
+				countInvalid(sc[0], sc[1])
+				do(sc[0], sc[1], r, located)
+				rep.Inc("wide_cases", 1)
+			}
+		}
+	}
 	hx.EmitWorkerReport(rep)
 	return 0
 }
